@@ -405,15 +405,28 @@ Definition sx_event (st : pst) (e : sx) : option event :=
   | SL [SN 4%Z; SN c] => Some (EClientClose (Z.to_nat c))
   | SL [SN 5%Z; SB a; SN k] => match find_sid st a k with Some s => Some (EServerClose s) | None => None end
   | SL [SN 6%Z] => Some ETimeout
-  | SL [SN 7%Z; SB a; SN k] => match find_sid st a k with Some s => Some (EProbe s) | None => None end
+  | SL [SN 7%Z; SB a] => Some (EProbe a)
+  | SL [SN 9%Z; SL nodes; SL ranges] =>
+      match map_opt (fun n => match n with SL [SB a; SN r] => Some (a, negb (Z.eqb r 0)) | _ => None end) nodes,
+            map_opt (fun r => match r with SL [SN lo; SN hi; SB a] => Some (lo, hi, a) | _ => None end) ranges with
+      | Some ns, Some rs => Some (ETopology ns rs)
+      | _, _ => None
+      end
   | _ => None
   end.
 
 Fixpoint insert_bytes_key {A} (x : bytes * A) (l : list (bytes * A)) : list (bytes * A) :=
   match l with [] => [x] | y :: r => if Cluster.bytes_leb (fst x) (fst y) then x :: l else y :: insert_bytes_key x r end.
 
+(* the addresses of all connections ever dialled (a pool may have been dropped by a topology change
+   while its connections are still waiting to be closed), sorted, without repetition *)
+Fixpoint dedup_sorted (l : list bytes) : list bytes :=
+  match l with
+  | a :: ((b :: _) as r) => if beqb a b then dedup_sorted r else a :: dedup_sorted r
+  | _ => l
+  end.
 Definition addrs_of (st : pst) : list bytes :=
-  map fst (fold_right insert_bytes_key [] (map (fun p => (pp_addr p, tt)) (pools st))).
+  dedup_sorted (map fst (fold_right insert_bytes_key [] (map (fun p => (ps_addr (snd p), tt)) (servers st)))).
 
 Definition sx_observe (st : pst) : sx :=
   SL [ SL (map (fun p => let c := fst p in let cl := snd p in
@@ -897,7 +910,7 @@ Definition last_obs (obs : list sx) : sx := last obs (SL []).
    must have been sent to the node that owns the slot of its first key in the configured table *)
 Definition misrouted (ranges : list sx) (addr : bytes) (a : list bytes) : bool :=
   let cmd := to_lower (hd [] a) in
-  let key := hd [] (tl a) in
+  let key := if (beqb cmd (bs "eval") || beqb cmd (bs "evalsha"))%bool then nth 3 a [] else hd [] (tl a) in
   if (beqb cmd (bs "auth") || beqb cmd (bs "readonly") || beqb cmd (bs "cluster") || beqb cmd (bs "asking"))%bool then false
   else if (find_sub key (bs "mov") || find_sub key (bs "ask"))%bool then false
   else match tl a with
@@ -929,6 +942,10 @@ Fixpoint scan_leaves_requests (prev_tasks : bool) (evs obs : list sx) : bool :=
 Definition o_loop (a : sx) : sx :=
   match a with
   | SL [SL [SL (SN limit :: SB pw :: SN tmo :: _); _; SL ranges; SL evs]; SL obs] =>
+      (* the slot tables in force at some point of the history: the configured one and those applied by
+         the ticker (the oracle does not know when a request was routed: the owner in any of them is
+         accepted; the theorem C04_delivered_to_the_owner is exact) *)
+      let tables := ranges :: concat (map (fun e => match e with SL [SN 9%Z; _; SL rs] => [rs] | _ => [] end) evs) in
       if (negb (Z.eqb tmo 0) && scan_leaves_requests false evs obs)%bool
       then viol "request-not-completed-by-the-timeout-scan" []
       else
@@ -972,7 +989,7 @@ Definition o_loop (a : sx) : sx :=
                 | SL [SB addr; SN k; _; _; _; SB got] =>
                     let reqs := all_requests (S (length got)) got in
                     if negb (Nat.eqb (length (concat (map enc_request reqs))) (length got)) then viol "backend-received-bytes-that-are-not-requests" [SB addr; SN k]
-                    else if existsb (fun a => misrouted ranges addr a) reqs then viol "request-delivered-to-a-node-that-does-not-own-the-slot" [SB addr; SN k]
+                    else if existsb (fun a => forallb (fun t => misrouted t addr a) tables) reqs then viol "request-delivered-to-a-node-that-does-not-own-the-slot" [SB addr; SN k]
                     else if negb (nondecreasing_per_client reqs []) then viol "requests-of-one-client-reordered-on-a-node" [SB addr; SN k]
                     else if (negb (beqb addr (bs "10.1.0.1:7000")) && ask_without_asking reqs false)%bool then viol "ask-redirect-without-asking" [SB addr; SN k]
                     else ok
